@@ -1329,6 +1329,10 @@ class TLSConnection(TLSRecordLayer):
         resuming = False
         if sr_psk:
             clPSK = clientHello.getExtension(ExtensionType.pre_shared_key)
+            if not clPSK or sr_psk.selected is None or \
+                    sr_psk.selected >= len(clPSK.identities):
+                raise TLSIllegalParameterException(
+                    "Server selected PSK identity we did not offer")
             ident = clPSK.identities[sr_psk.selected]
             psk = [i[1] for i in settings.pskConfigs if i[0] == ident.identity]
             if psk:
